@@ -15,6 +15,7 @@ import (
 	"encoding/base64"
 	"encoding/json"
 	"fmt"
+	stdhtml "html"
 	"math/rand"
 	"runtime"
 	"sort"
@@ -278,8 +279,12 @@ func (e *engine) shrink(si int, s string) (string, string) {
 
 // ---------------------------------------------------------------- escaper monitor
 
-// strictDecode inverts exactly the five entities EscapeString may emit; any
-// other '&' sequence, or a raw metacharacter, is a fault.
+// strictDecode inverts the character references in an escaped string. Every
+// '&' must start a well-formed reference terminated by ';' (one of the usual
+// spellings of the five metacharacters, any numeric reference, or a named
+// reference the HTML decoder knows); a raw metacharacter or an '&' that starts
+// no such reference is a fault. Which spelling the escaper chooses is its own
+// business.
 func strictDecode(esc string) (string, string) {
 	var sb strings.Builder
 	for i := 0; i < len(esc); {
@@ -288,18 +293,20 @@ func strictDecode(esc string) (string, string) {
 		case '<', '>', '"', '\'':
 			return "", fmt.Sprintf("raw %q at offset %d", ch, i)
 		case '&':
-			ok := false
-			for _, ent := range entities {
-				if strings.HasPrefix(esc[i:], ent.e) {
-					sb.WriteByte(ent.c)
-					i += len(ent.e)
-					ok = true
-					break
-				}
+			j := i + 1
+			for j < len(esc) && j-i <= 40 && (esc[j] == '#' || esc[j] >= '0' && esc[j] <= '9' || esc[j] >= 'a' && esc[j] <= 'z' || esc[j] >= 'A' && esc[j] <= 'Z') {
+				j++
 			}
-			if !ok {
+			if j >= len(esc) || esc[j] != ';' || j == i+1 {
 				return "", fmt.Sprintf("raw '&' at offset %d", i)
 			}
+			ref := esc[i : j+1]
+			dec := stdhtml.UnescapeString(ref)
+			if dec == ref {
+				return "", fmt.Sprintf("raw '&' at offset %d (%s is not a character reference)", i, ref)
+			}
+			sb.WriteString(dec)
+			i = j + 1
 		default:
 			sb.WriteByte(ch)
 			i++
@@ -307,11 +314,6 @@ func strictDecode(esc string) (string, string) {
 	}
 	return sb.String(), ""
 }
-
-var entities = []struct {
-	e string
-	c byte
-}{{"&lt;", '<'}, {"&gt;", '>'}, {"&amp;", '&'}, {"&#34;", '"'}, {"&#39;", '\''}, {"&quot;", '"'}, {"&apos;", '\''}}
 
 func escaperFault(s string, tokenize bool) string {
 	esc := templ.EscapeString(s)
